@@ -1,6 +1,7 @@
 package w2
 
 import (
+	"encoding/json"
 	"fmt"
 	"strings"
 
@@ -140,19 +141,82 @@ func (w *World) checkIsolation(trace bool) (key, msg string, extra []string) {
 	return known, knownMsg, extra
 }
 
-// AddWithArgsAnnotation runs one CNI ADD through a fresh daemon for a pod that carries the given
-// k8s.v1.cni.galaxy.io/args annotation and returns what the fake plugin decoded from its CNI_ARGS with the
-// plugins' own decoder (cni/ipam.Allocate): address, prefix length, gateway and VLAN per IP, in order.
-// It creates its own simulation (resetting the simulated clock); call it only while no other run is in progress.
-func AddWithArgsAnnotation(ns, name, argsAnnotation string) (decoded []DecodedIP, status int, reply string, infra string) {
+// C13Net is one network of the pod in the C13 path.
+type C13Net struct {
+	Name   string // network name (json config, with "name")
+	Type   string // plugin
+	IPAM   bool   // the configuration carries its own ipam section (the fallback of plugins when the args have no ipinfos)
+	IfName string // interface named by the annotation entry ("" = none)
+}
+
+// C13Request describes the ADD of the C13 path.
+type C13Request struct {
+	NS, Name       string
+	ArgsAnnotation string
+	Nets           []C13Net // the pod's networks in annotation order; empty = one default network without annotation
+	JSONForm       bool     // networks annotation in JSON form (comma list otherwise)
+}
+
+// C13Invocation is what one plugin ADD of that request decoded from its CNI_ARGS with cni/ipam.Allocate.
+type C13Invocation struct {
+	Plugin     string
+	IfName     string
+	HadIPInfos bool
+	Decoded    []DecodedIP
+	Err        string
+}
+
+// AddForC13 runs one CNI ADD through a fresh daemon for a pod that carries the given args annotation and selects
+// the given networks, and returns what every invoked plugin decoded. It creates its own simulation (resetting the
+// simulated clock); call it only while no other run is in progress.
+func AddForC13(rq C13Request) (invs []C13Invocation, status int, reply string, infra string) {
 	s := core.NewSim(core.ReplayChoices(0, nil))
 	s.MaxSteps = 20000
 	cfg := &Config{Prop: "C13", EphLo: 32768, EphHi: 32773, ScriptSeed: 1}
-	cfg.Nets = []*NetDef{{Name: "galaxy-k8s-vlan", Type: "galaxy-k8s-vlan", HasName: false, Form: "json", Version: "0.2.0", Extra: map[string]interface{}{}}}
-	cfg.DefaultNets = []string{"galaxy-k8s-vlan"}
+	p := &PodDef{Idx: 0, NS: rq.NS, Name: rq.Name, KubeIf: "eth0", Annotations: map[string]string{annArgs: rq.ArgsAnnotation}, Sandboxes: 1, AnnForm: "none"}
+	if len(rq.Nets) == 0 {
+		cfg.Nets = []*NetDef{{Name: "galaxy-k8s-vlan", Type: "galaxy-k8s-vlan", HasName: false, Form: "json", Version: "0.2.0", Extra: map[string]interface{}{}}}
+		cfg.DefaultNets = []string{"galaxy-k8s-vlan"}
+		p.Expect = []ExpNet{{Net: "galaxy-k8s-vlan", Type: "galaxy-k8s-vlan", IfName: "eth0"}}
+	} else {
+		var items []string
+		var elems []map[string]interface{}
+		for i, n := range rq.Nets {
+			if cfg.net(n.Name) == nil {
+				nd := &NetDef{Name: n.Name, Type: n.Type, HasName: true, Form: "json", Version: []string{"0.2.0", "0.3.1", ""}[i%3], Extra: map[string]interface{}{}}
+				if n.IPAM {
+					nd.Extra["ipam"] = map[string]interface{}{"type": "host-local", "subnet": fmt.Sprintf("172.31.%d.0/24", i)}
+				}
+				cfg.Nets = append(cfg.Nets, nd)
+			}
+			e := ExpNet{Net: n.Name, Type: n.Type, IfName: "eth0"}
+			it := n.Name
+			el := map[string]interface{}{"name": n.Name}
+			if n.IfName != "" {
+				it += "@" + n.IfName
+				el["interface"] = n.IfName
+			}
+			if i > 0 {
+				e.IfName = n.IfName
+				if e.IfName == "" {
+					e.IfName = fmt.Sprintf("eth%d", i)
+				}
+			}
+			items = append(items, it)
+			elems = append(elems, el)
+			p.Expect = append(p.Expect, e)
+		}
+		cfg.DefaultNets = []string{rq.Nets[0].Name}
+		if rq.JSONForm {
+			b, _ := json.Marshal(elems)
+			p.Annotations[annNetworks] = string(b)
+			p.AnnForm = "json"
+		} else {
+			p.Annotations[annNetworks] = strings.Join(items, ",")
+			p.AnnForm = "list"
+		}
+	}
 	cfg.configFiles(core.ReplayChoices(0, nil))
-	p := &PodDef{Idx: 0, NS: ns, Name: name, KubeIf: "eth0", Annotations: map[string]string{annArgs: argsAnnotation}, Sandboxes: 1,
-		Expect: []ExpNet{{Net: "galaxy-k8s-vlan", Type: "galaxy-k8s-vlan", IfName: "eth0"}}, AnnForm: "none"}
 	cfg.Pods = []*PodDef{p}
 	w := NewWorld(s, "C13", cfg, &SoloSpec{PodIdx: 0, Cmds: []string{"ADD"}})
 	s.W = w
@@ -166,5 +230,14 @@ func AddWithArgsAnnotation(ns, name, argsAnnotation string) (decoded []DecodedIP
 	for _, r := range w.reqs {
 		status, reply = r.Code, string(r.Resp)
 	}
-	return w.decoded, status, reply, infra
+	return w.c13Invs, status, reply, infra
+}
+
+// AddWithArgsAnnotation is AddForC13 for a pod on one default network; it returns what that plugin decoded.
+func AddWithArgsAnnotation(ns, name, argsAnnotation string) (decoded []DecodedIP, status int, reply string, infra string) {
+	invs, status, reply, infra := AddForC13(C13Request{NS: ns, Name: name, ArgsAnnotation: argsAnnotation})
+	if len(invs) > 0 {
+		decoded = invs[len(invs)-1].Decoded
+	}
+	return decoded, status, reply, infra
 }
